@@ -11,7 +11,7 @@ def K(tech, text, ref):
 
 CLAIMED = {
  "C01": K("table monitor after every commit + observation ledger", "Write-once completion and immutable creation fields are checked on every committed transaction (rules T1/T2) and on every promise body that leaves the server (responses, claim payloads, notifications) under concurrent requests, sweeps, failures and crashes.", "DESIGN.md 5 C01"),
- "C02": K("refinement of every response against a sequential API specification at the request's own commit points", "Every response must equal what the sequential specification gives for some state the request's own store transactions saw or produced and some server clock within the request's interval; every store batch must refine the reference store model.", "DESIGN.md 5 C02, 4.2"),
+ "C02": K("refinement of every response against a sequential API specification at the request's own commit points", "Every response must equal what the sequential specification gives for some state the request's own store transactions saw or produced and some server clock within the request's interval; an acknowledged task or lock lease must not be undone before it ends. Runs rotate through the general request mix and the task, lock, registration and schedule mixes.", "DESIGN.md 5 C02, 4.2"),
  "C03": K("sequential specification of create/complete idempotency + write-once monitor under retries and lost responses", "One promise id per run, retried and duplicated creates/completes with every key/strict/state combination around the timeout, lost responses injected after commit; statuses from the specification, at most one creation/completion by the table monitor.", "DESIGN.md 5 C03"),
  "C04": K("boundary-biased simulated clock; exact rules on the response clock and on stored rows", "Ticks are placed on and around every stored deadline; no reply may show a promise pending at a response clock >= timeout, no row may time out before its deadline, timed-out rows have the prescribed shape, late completions never install the caller's value.", "DESIGN.md 5 C04"),
  "C05": K("conversion invariant at the completing transaction + registration acknowledgement rule", "At the transaction that takes a promise out of pending every registration becomes exactly one task and is removed; no registration outlives its promise at any commit; acknowledged registrations are explained by the specification.", "DESIGN.md 5 C05"),
@@ -20,13 +20,13 @@ CLAIMED = {
  "C08": K("birth/finish atomicity monitor + per-cycle dispatch rules with the production router and sender worker over simulated transports", "Routed promises are born with their task, completion finishes outstanding tasks in the same transaction, each dispatch cycle obeys the selection rules, tasks are enqueued only after a successful hand-off.", "DESIGN.md 5 C08"),
  "C09": K("lock lease monitor + lock specification", "Mutual exclusion, release only by the holder, expiry only at or after the (timely renewed) lease end, heartbeats change only leases of the caller's locks.", "DESIGN.md 5 C09"),
  "C10": K("occurrence oracle (independent cron walk) on every schedule-row transition", "Every change of a schedule row must be the firing of exactly the next occurrence, not before its time, together with that occurrence's promise carrying the schedule's configuration; creation/deletion rules; clock jumps over many occurrences, crashes mid-cycle.", "DESIGN.md 5 C10"),
- "C11": K("bounded-liveness predicate after a fault-free window whose length is computed from the backlog, swarm over all size knobs", "After clients and faults stop, the server is granted a number of background periods computed from the stored backlog and the batch sizes; afterwards nothing may be overdue and the kernel must be quiescent.", "DESIGN.md 5 C11"),
- "C12": K("exactly-one-response accounting on the production api/aio queues under tiny queues, subsystem failures and shutdown", "Every submitted request is counted: never two callbacks, exactly one by the end of the run (or lost only to a crash), explicit kernel error codes, graceful shutdown answers everything accepted.", "DESIGN.md 5 C12"),
+ "C11": K("bounded-liveness predicate after a fault-free window whose length is computed from the backlog, swarm over all size knobs", "After clients and faults stop, the server is granted a number of background periods computed from the stored backlog and the batch sizes; afterwards nothing may be overdue and the kernel must be quiescent (one run in three uses the task mix with failing hand-offs).", "DESIGN.md 5 C11"),
+ "C12": K("exactly-one-response accounting on the production api/aio queues under tiny queues, subsystem failures and shutdown", "Every submitted request is counted: never two callbacks, exactly one by the end of the run (or lost only to a crash), explicit kernel error codes, graceful shutdown answers everything accepted; a production call that never returns (every goroutine blocked) is reported as a hang with its replay. A second phase runs the production Loop/Signal/Shutdown in a synctest bubble.", "DESIGN.md 5 C12"),
  "C14": K("per-page comparison with the state the page's transaction saw + traversal oracle across pages", "Each page must be the newest-first matching set of the state its search transaction saw, with a cursor iff full; a completed traversal must contain every item that matched throughout exactly once, in order; forged cursors are refused.", "DESIGN.md 5 C14"),
  "C19": K("independent receiver resolution function checked against every hand-off of the production router + sender worker", "For every dispatched task the message must reach the transport and address the statement prescribes, with the body naming that exact task; unresolvable addresses must produce failed, retried hand-offs, never a message.", "DESIGN.md 5 C19"),
 }
 CLAIMED["C16"] = ("S", "deterministic simulation with fault injection: store-level refinement against an in-memory reference store, with failing statement positions and a mid-transaction observer",
-  "Generated batches of store transactions (all 27 command kinds, small argument domains) run through the production Process/Execute/SQL on real SQLite and through the reference store; results and table contents compared after every batch; injected statement/begin/commit failures must fail every submission without effects; a second connection must see nothing before commit. Seeded sampling: evidence, not proof.",
+  "Generated batches of store transactions (all 27 command kinds, small argument domains) run through the production Process/Execute/SQL on real SQLite and through the reference store; results and table contents compared after every batch; injected statement/begin/commit failures must fail every submission without effects; a second connection must see nothing before commit. A second phase (30 % of the budget) runs the kernel engine and requires every batch the production coroutines commit to refine the same reference store. Seeded sampling: evidence, not proof.",
   "Trusts SQLite's engine and atomic commit; the reference store is written from the command contract.", "DESIGN.md 5 C16")
 CLAIMED["C17"] = ("S", "deterministic simulation with fault injection: twin run of the SQLite backend and the Postgres backend code over a dialect-rewriting driver, both against the reference store",
   "The same generated batches (and injected failures) go through sqlite.go and postgres.go; the Postgres statements are executed on SQLite by a syntactic rewriting driver, so guards, argument order, scan order and result mapping of postgres.go are exercised for real; results and contents are compared with the reference store and with each other. Seeded sampling with a stubbed database server.",
